@@ -239,6 +239,101 @@ theorem commit_is_joint (cfg : Cfg) (ops : List Op) (hs : SafeHist cfg {} ops) (
   have ⟨hc, hf⟩ := run_coh cfg ops {} coh_init rfl hs
   exact (sessOp_complete_agree cfg _ sid s mode hc hf).2 hack
 
+/-- the commands of the commissioning in progress never write to the store: CSRRequest,
+AddTrustedRootCertificate, AddNOC, UpdateNOC, network changes and (re-)arming leave every key alone
+(what they change lives in memory until CommissioningComplete) -/
+theorem commissioning_ops_keep_store (cfg : Cfg) (n : Node) (sid : Nat) (mode : Mode) (op : Op)
+    (hop : (∃ s u, op = .csr s u) ∨ (∃ s c, op = .root s c) ∨
+           (∃ s c f nd a r, op = .addnoc s c f nd a r) ∨ (∃ s nd r, op = .updnoc s nd r) ∨
+           (∃ s v, op = .net s v) ∨ (∃ s v, op = .rmnet s v) ∨ (∃ s t, op = .arm s t ∧ t ≠ 0)) :
+    (sessOp cfg n sid mode op).1.kv = n.kv ∧ (sessOp cfg n sid mode op).1.hist = n.hist := by
+  rcases hop with ⟨s, u, rfl⟩ | ⟨s, c, rfl⟩ | ⟨s, c, f, nd, a, r, rfl⟩ | ⟨s, nd, r, rfl⟩ | ⟨s, v, rfl⟩ | ⟨s, v, rfl⟩ | ⟨s, t, rfl, ht⟩
+  all_goals simp only [sessOp]
+  all_goals repeat' split
+  all_goals first | exact ⟨rfl, rfl⟩ | (exfalso; omega) | skip
+
+/-- an ACL write of the fabric the fail-safe is armed for is deferred: the store is not touched -/
+theorem deferred_acl_keeps_store (cfg : Cfg) (n : Node) (sid s v : Nat) (mode : Mode)
+    (harm : armedFor n mode.fab = true) : (sessOp cfg n sid mode (.acl s v)).1.kv = n.kv := by
+  simp only [sessOp]
+  split
+  · rfl
+  · cases hg : getFabric n mode.fab with
+    | none => rfl
+    | some f =>
+      have hidx := getFabric_idx hg
+      simp only []
+      split
+      · rfl
+      · have h2 : armedFor (setFabric n { f with acl := f.acl ++ [v] }) f.idx = true := by
+          rw [hidx]; exact harm
+        simp only [h2, if_true, ok]
+        rfl
+
+/-- no operation of the list writes a fabric key or the networks key -/
+def StoreQuiet (cfg : Cfg) : Node → List Op → Prop
+  | _, [] => True
+  | n, op :: rest =>
+    (step cfg n op).1.kv.fabs = n.kv.fabs ∧ (step cfg n op).1.kv.nets = n.kv.nets ∧
+    StoreQuiet cfg (step cfg n op).1 rest
+
+theorem storeQuiet_run (cfg : Cfg) (ops : List Op) : ∀ (n : Node), StoreQuiet cfg n ops →
+    (run cfg n ops).kv.fabs = n.kv.fabs ∧ (run cfg n ops).kv.nets = n.kv.nets := by
+  induction ops with
+  | nil => intro n _; exact ⟨rfl, rfl⟩
+  | cons op rest ih =>
+    intro n h
+    have ⟨h1, h2⟩ := ih _ h.2.2
+    show (run cfg (step cfg n op).1 rest).kv.fabs = n.kv.fabs ∧ (run cfg (step cfg n op).1 rest).kv.nets = n.kv.nets
+    exact ⟨by rw [h1, h.1], by rw [h2, h.2.1]⟩
+
+/-- **Exactly what they were before arming.**  Take a quiescent state `q` reached by a fault-free
+history, then any fault-free history `ops1` (arming, credential commands, deferred writes, network
+changes, session establishments, time …) during which nothing is committed to the fabric / network
+keys, then a successful expiry: every fabric record (identity, NOC, ACL, groups, label) and the
+networks of the node are exactly those of `q`, and the fail-safe is idle. -/
+theorem rollback_restores_state_before_arming (cfg : Cfg) (ops0 ops1 : List Op)
+    (hs0 : SafeHist cfg {} ops0) (hidle : (run cfg {} ops0).fs = none)
+    (hs1 : SafeHist cfg (run cfg {} ops0) ops1) (hq : StoreQuiet cfg (run cfg {} ops0) ops1)
+    (a : Armed) (exp : Option Nat)
+    (harmed : (run cfg (run cfg {} ops0) ops1).fs = some a)
+    (hok : (expireAndPurge cfg (run cfg (run cfg {} ops0) ops1) a exp).2 = none) :
+    (∀ i, i ≠ 0 → getFabric (expireAndPurge cfg (run cfg (run cfg {} ops0) ops1) a exp).1 i =
+                  getFabric (run cfg {} ops0) i) ∧
+    ((expireAndPurge cfg (run cfg (run cfg {} ops0) ops1) a exp).1.nets,
+     (expireAndPurge cfg (run cfg (run cfg {} ops0) ops1) a exp).1.managed) =
+      ((run cfg {} ops0).nets, (run cfg {} ops0).managed) ∧
+    (expireAndPurge cfg (run cfg (run cfg {} ops0) ops1) a exp).1.fs = none := by
+  have ⟨hc0, hf0⟩ := run_coh cfg ops0 {} coh_init rfl hs0
+  have hag0 := agree_of_coh_idle hc0 hidle
+  have ⟨hc1, hf1⟩ := run_coh cfg ops1 _ hc0 hf0 hs1
+  have ⟨hk1, hk2⟩ := storeQuiet_run cfg ops1 _ hq
+  have ⟨hag, hfs, _, h4, h5⟩ := expireAndPurge_agree cfg _ a exp hc1 harmed hf1 hok
+  refine ⟨fun i hi => ?_, ?_, hfs⟩
+  · rw [hag.1 i hi, hag0.1 i hi]
+    simp only [kvF, h4, hk1]
+  · rw [hag.2, hag0.2]
+    simp only [kvNets, h5, hk2]
+
+instance decStoreQuiet (cfg : Cfg) : (n : Node) → (ops : List Op) → Decidable (StoreQuiet cfg n ops)
+  | _, [] => isTrue trivial
+  | n, op :: rest =>
+    have := decStoreQuiet cfg (step cfg n op).1 rest
+    by simp only [StoreQuiet]; infer_instance
+
+/-- the hypotheses of `rollback_restores_state_before_arming` are satisfiable: a commissioned node
+(`ops0`), then ArmFailSafe over CASE, a deferred ACL write, CSRRequest(update), UpdateNOC, a network
+change (`ops1`) - armed, store quiet, and the expiry succeeds -/
+example :
+    let ops0 : List Op := [.boot, .pase, .arm 0 60, .csr 0 false, .root 0 1, .addnoc 0 1 5 10 100 1,
+      .caseEst 1 100 1, .complete 1]
+    let ops1 : List Op := [.arm 1 60, .acl 1 200, .csr 1 true, .updnoc 1 11 2, .net 1 3]
+    SafeHist {} {} ops0 ∧ (run {} {} ops0).fs = none ∧ SafeHist {} (run {} {} ops0) ops1 ∧
+    StoreQuiet {} (run {} {} ops0) ops1 ∧
+    (∃ a, (run {} (run {} {} ops0) ops1).fs = some a ∧
+      (expireAndPurge {} (run {} (run {} {} ops0) ops1) a none).2 = none) := by
+  refine ⟨by decide, by decide, by decide, by decide, ⟨_, rfl, by decide⟩⟩
+
 /-- the hypotheses are satisfiable: a complete commissioning is a `SafeHist` and ends in agreement -/
 example : SafeHist {} {} [.boot, .pase, .arm 0 60, .csr 0 false, .root 0 1, .addnoc 0 1 5 10 100 1,
     .caseEst 1 100 1, .complete 1] := by
